@@ -1,6 +1,7 @@
 // vextract — tie A: regenerates Lean *data* files from the broker's source (DESIGN.md §2.3).
 //
-//	vextract -repo /repo -out lean/Mochi/Gen     writes Gen/LockGraph.lean, RootLock.lean, Access.lean, AccessKnown.lean
+//	vextract -repo /repo -out lean/Mochi/Gen     writes Gen/LockGraph.lean, RootLock.lean, Access.lean, AccessKnown.lean,
+//	                                             Gen/PropTable.lean, Gen/Codes.lean (tables.go) and Gen/Programs.lean (order.go)
 //	vextract -repo /repo -report [-json]         prints the re-entrant / unordered acquisitions it finds
 //	vextract -repo /repo -racereport [-json] [-known known-findings.txt]
 //	                                             prints the unsynchronised conflicting access pairs (C33)
@@ -104,9 +105,11 @@ func main() {
 	}
 	changed := 0
 	a := x.accessTable()
-	for name, content := range map[string]string{"LockGraph.lean": g.lean(), "RootLock.lean": x.rootLockLean(),
-		"Access.lean": a.lean(), "AccessKnown.lean": a.knownLean(known, badKnown)} {
-		if writeIfChanged(filepath.Join(*out, name), content) {
+	files := map[string]string{"LockGraph.lean": g.lean(), "RootLock.lean": x.rootLockLean(),
+		"Access.lean": a.lean(), "AccessKnown.lean": a.knownLean(known, badKnown),
+		"PropTable.lean": x.propTableLean(), "Codes.lean": x.codesLean(), "Programs.lean": x.programsLean()}
+	for _, name := range []string{"LockGraph.lean", "RootLock.lean", "Access.lean", "AccessKnown.lean", "PropTable.lean", "Codes.lean", "Programs.lean"} {
+		if writeIfChanged(filepath.Join(*out, name), files[name]) {
 			changed++
 		}
 	}
